@@ -97,6 +97,45 @@ type MutC struct {
 	Fl float64 `frugal:"2,required,double"`
 }
 
+// further cyclic families (first-use order and concurrent registration matter)
+type Ring1 struct {
+	N  *Ring2 `frugal:"1,optional,Ring2"`
+	X  *Leaf  `frugal:"2,optional,Leaf"`
+	ID int32  `frugal:"3,default,i32"`
+}
+
+type Ring2 struct {
+	N *Ring3 `frugal:"1,optional,Ring3"`
+	S string `frugal:"2,default,string"`
+}
+
+type Ring3 struct {
+	N *Ring1   `frugal:"1,optional,Ring1"`
+	L []*Ring2 `frugal:"2,optional,list<Ring2>"`
+	W *Wide    `frugal:"3,optional,Wide"`
+}
+
+type Tree struct {
+	Kids map[string]*Tree `frugal:"1,optional,map<string:Tree>"`
+	Meta *TreeMeta        `frugal:"2,optional,TreeMeta"`
+	V    int64            `frugal:"3,required,i64"`
+}
+
+type TreeMeta struct {
+	Owner *Tree  `frugal:"1,optional,Tree"`
+	Tags  []string `frugal:"2,default,set<string>"`
+}
+
+type PV struct {
+	V VV `frugal:"1,default,VV"`
+}
+
+type VV struct {
+	L []*PV  `frugal:"1,optional,list<PV>"`
+	D *Defs  `frugal:"2,optional,Defs"`
+	I int16  `frugal:"3,default,i16"`
+}
+
 // ---- defaults
 
 type Defs struct {
@@ -232,8 +271,13 @@ type Embedded struct {
 	Hidden int32 `frugal:"90,default,i32"`
 }
 
+type EmbTagged struct {
+	Z int64 `frugal:"1,default,i64"`
+}
+
 type Ignoring struct {
 	Embedded         // embedded: ignored although its field is tagged
+	EmbTagged `frugal:"9,default,EmbTagged"` // embedded with its own valid tag: still ignored
 	A        int32   `frugal:"1,default,i32"`
 	Untagged string  // no tag: ignored
 	private  int64   `frugal:"2,default,i64"` // unexported: ignored
